@@ -11,10 +11,13 @@ loops, and the thresholds come from the REGENERATED kernels `Gen.IsTimeInMilli`,
 `Gen.parseTimestamp`, `Gen.normalizeIntToSeconds`: a changed threshold, comparison or divisor in
 /repo breaks these proofs.
 
-Field preservation across the protocol decoders is NOT part of this file (declared partial).
+Field preservation across the protocol decoders: section `Content` at the end of this file (the flattener
+`ParseRawJsonObject` and the protocol envelopes, over the specification SigModel/Spec/Flatten.lean).
 -/
 import SigModel.Model.TimeUnit
 import SigModel.Lemmas.C16
+import SigModel.Spec.Flatten
+import SigModel.Lemmas.C16Flatten
 
 namespace SigModel.Props.C16
 open SigModel SigModel.TimeUnit SigModel.MachInt
@@ -512,5 +515,358 @@ theorem promql_time_correct (u : TUnit) (v : Nat) (h : inMetricWindow u v)
 example : inMetricWindow .sec 1700000000 ∧ inMetricWindow .milli 1700000000123 ∧
     inMetricWindow .nano 1700000000123456789 := by
   refine ⟨⟨?_, ?_⟩, ⟨?_, ?_⟩, ⟨?_, ?_⟩⟩ <;> simp only [inWindow, toSeconds] <;> omega
+
+
+/-! # CONTENT: "stored with all of its fields, attributes and identifiers intact"
+
+Vocabulary (SigModel/Spec/Flatten.lean): a logical event is a JSON tree (`Members` = the members of the root
+object); `leavesMembers doc` lists every scalar leaf with ITS OWN path (member keys and array positions);
+`flatten ts doc` is what `GetNewPLE`/`ParseRawJsonObject` turn the document into: the columns `(name, value)`
+in emission order; `joinPath [] p` is the flattener's name of path `p`, `dotted p` the documented convention
+(segments joined with "."); `ts` is the configured timestamp key.  All statements are for EVERY tree. -/
+namespace Content
+open SigModel.Spec.Flatten SigModel.Lemmas.C16Flatten
+
+/-- EXACT CONTENT (and totality: `flatten` is a total function on all trees): the flattener emits exactly the
+tree's leaves — each once, in document order, under the flattener's name of its path, with its value — except
+the leaves whose NAME is the timestamp key.  Nothing else is dropped, nothing is invented. -/
+theorem flatten_exact (ts : Bytes) (doc : Members) :
+    flatten ts doc = ((leavesMembers doc).map (fun p => (joinPath [] p.1, p.2))).filter (fun q => q.1 ≠ ts) := by
+  unfold flatten
+  rw [flatMembers_eq]; rfl
+
+/-- the same at every depth and behind every prefix (`cur` = the name built so far) -/
+theorem flatten_exact_below (ts cur : Bytes) (j : Json) :
+    flatVal ts cur j = ((leaves j).map (fun p => (joinPath cur p.1, p.2))).filter (fun q => q.1 ≠ ts) := by
+  rw [flatVal_eq]; rfl
+
+/-- COUNT: stored columns + leaves consumed as the time = leaves of the tree -/
+theorem flatten_count (ts : Bytes) (doc : Members) :
+    (flatten ts doc).length + ((leavesMembers doc).filter (fun p => joinPath [] p.1 = ts)).length
+      = (leavesMembers doc).length := by
+  rw [flatten_exact, List.filter_map, List.length_map]
+  have := filter_length_split (fun p : List Bytes × Atom => decide (joinPath [] p.1 ≠ ts)) (leavesMembers doc)
+  simp only [decide_not, Bool.not_not] at this
+  simpa [Function.comp_def] using this
+
+/-- LEAF PRESERVATION: every leaf whose name is not the timestamp key is stored under the name of its own path
+with its own value -/
+theorem leaf_preserved (ts : Bytes) (doc : Members) (x : List Bytes × Atom) (hx : x ∈ leavesMembers doc)
+    (hne : joinPath [] x.1 ≠ ts) : (joinPath [] x.1, x.2) ∈ flatten ts doc := by
+  unfold flatten
+  exact (mem_flatMembers ts [] doc _).mpr ⟨x, hx, rfl, hne⟩
+
+/-- … and the name is the documented one — the segments joined with "." — whenever the root key of the path is
+not the empty string -/
+theorem leaf_preserved_dotted (ts : Bytes) (doc : Members) (k : Bytes) (r : List Bytes) (v : Atom)
+    (hx : (k :: r, v) ∈ leavesMembers doc) (hk : k ≠ []) (hne : dotted (k :: r) ≠ ts) :
+    (dotted (k :: r), v) ∈ flatten ts doc := by
+  have := leaf_preserved ts doc (k :: r, v) hx (by rw [joinPath_root k r hk]; exact hne)
+  rwa [joinPath_root k r hk] at this
+
+/-- guard of the nested-leaf theorem: no ROOT member has the empty key (decidable) -/
+def NoEmptyRootKey (doc : Members) : Prop := rootKeysNonEmpty doc = true
+instance (doc : Members) : Decidable (NoEmptyRootKey doc) := by unfold NoEmptyRootKey; exact inferInstance
+
+/-- FULL STATEMENT for nested leaves: "a leaf below the root level (path of two or more segments) is always
+stored, whatever its own key is — the timestamp key included; only the ROOT-level timestamp member is consumed
+as the time". -/
+def NestedLeavesStored : Prop :=
+  ∀ (ts : Bytes), dot ∉ ts → ∀ (doc : Members) (x : List Bytes × Atom), x ∈ leavesMembers doc → 2 ≤ x.1.length →
+    ∃ n, (n, x.2) ∈ flatten ts doc
+
+/-- the code violates the full statement: the flattener treats an EMPTY name-so-far as "no prefix", so the
+members of a root member with the empty key are named like root members: in `{"": {"t": 5}}` with timestamp key
+`t` the nested leaf is consumed (nothing is stored). -/
+theorem nested_leaves_stored_counterexample : ¬ NestedLeavesStored := by
+  intro h
+  have := h [116] (by decide) (.cons [] (.obj (.cons [116] (.leaf (.num ['5'] ['5'])) .nil)) .nil)
+    ([[], [116]], .num ['5'] ['5']) (by simp [leavesMembers, leaves]) (by simp)
+  obtain ⟨n, hn⟩ := this
+  simp [flatten, flatMembers, flatVal, joinKey, emit] at hn
+
+/-- the statement holds for every tree without an empty ROOT key: a nested leaf — also one whose own key equals
+the timestamp key, at any depth, inside arrays — is stored under its dotted path with its value (the timestamp
+key contains no dot: `timestamp`) -/
+theorem nested_leaves_stored_partial (ts : Bytes) (hts : dot ∉ ts) (doc : Members) (hg : NoEmptyRootKey doc)
+    (x : List Bytes × Atom) (hx : x ∈ leavesMembers doc) (h2 : 2 ≤ x.1.length) :
+    (dotted x.1, x.2) ∈ flatten ts doc := by
+  obtain ⟨k, r, e, hk⟩ := mem_leavesMembers_head doc x hx
+  have hkn : k ≠ [] := by
+    intro e0; subst e0
+    simp [NoEmptyRootKey, rootKeysNonEmpty, hk] at hg
+  obtain ⟨p, v⟩ := x
+  simp only at e; subst e
+  match r, h2 with
+  | t :: r', _ =>
+    refine leaf_preserved_dotted ts doc k (t :: r') v hx hkn ?_
+    intro e
+    have := dot_mem_joinPath_of_two k t r' hkn
+    rw [joinPath_root k _ hkn, e] at this
+    exact hts this
+
+example : NoEmptyRootKey (.cons [97] (.obj (.cons [116] (.leaf .null) .nil)) .nil) := by decide
+
+/-- WHAT IS CONSUMED: without an empty root key and with a dot-free timestamp key, a leaf is consumed as the time
+iff it is the root-level member named like the timestamp key -/
+theorem only_root_ts_consumed (ts : Bytes) (hts : dot ∉ ts) (doc : Members) (hg : NoEmptyRootKey doc)
+    (x : List Bytes × Atom) (hx : x ∈ leavesMembers doc) : joinPath [] x.1 = ts ↔ x.1 = [ts] := by
+  obtain ⟨k, r, e, hk⟩ := mem_leavesMembers_head doc x hx
+  have hkn : k ≠ [] := by
+    intro e0; subst e0
+    simp [NoEmptyRootKey, rootKeysNonEmpty, hk] at hg
+  rw [e, joinPath_root k r hkn]
+  cases r with
+  | nil => simp [dotted]
+  | cons t r' =>
+    constructor
+    · intro e2
+      have := dot_mem_joinPath_of_two k t r' hkn
+      rw [joinPath_root k _ hkn, e2] at this
+      exact absurd this hts
+    · intro e2; simp at e2
+
+/-- guard of the no-collision theorem (decidable): in every object of the tree the keys are pairwise distinct
+and contain no dot, and no root key is empty -/
+def WellKeyed (doc : Members) : Prop := wellKeyedMembers doc = true ∧ rootKeysNonEmpty doc = true
+instance (doc : Members) : Decidable (WellKeyed doc) := by unfold WellKeyed; exact inferInstance
+
+/-- FULL STATEMENT "distinct leaves get distinct column names" -/
+def NamesDistinct : Prop := ∀ (ts : Bytes) (doc : Members), ((flatten ts doc).map (fun q => q.1)).Nodup
+
+/-- the code violates it: a key that contains a dot collides with a nested path — `{"a.b": 1, "a": {"b": 2}}`
+emits the column `a.b` twice (and the record is read back with one of the two values) -/
+theorem names_distinct_counterexample : ¬ NamesDistinct := by
+  intro h
+  have := h [0] (.cons [97, 46, 98] (.leaf (.num ['1'] ['1'])) (.cons [97] (.obj (.cons [98] (.leaf (.num ['2'] ['2'])) .nil)) .nil))
+  simp [flatten, flatMembers, flatVal, joinKey, emit, dot] at this
+
+/-- … and so does the empty root key: `{"": {"a": 1}, "a": 2}` emits `a` twice -/
+theorem names_distinct_counterexample_empty_key : ¬ NamesDistinct := by
+  intro h
+  have := h [0] (.cons [] (.obj (.cons [97] (.leaf (.num ['1'] ['1'])) .nil)) (.cons [97] (.leaf (.num ['2'] ['2'])) .nil))
+  simp [flatten, flatMembers, flatVal, joinKey, emit] at this
+
+/-- INJECTIVITY ON KEY PATHS: for every well-keyed tree distinct leaves are stored under distinct names (array
+positions included: decimal rendering is injective) -/
+theorem names_distinct_partial (ts : Bytes) (doc : Members) (hg : WellKeyed doc) :
+    ((flatten ts doc).map (fun q => q.1)).Nodup := by
+  unfold flatten
+  rw [flatMembers_eq]
+  exact (names_nodup doc hg.1 hg.2).sublist (keep_names_sublist ts _)
+
+example : WellKeyed (.cons [97] (.obj (.cons [98] (.arr (.cons (.leaf .null) .nil)) .nil)) (.cons [99] (.leaf .null) .nil)) := by decide
+
+/-- hence the record that is read back (`lookupLast`: one value per name) shows, for a well-keyed tree, every
+stored leaf with exactly its own value -/
+theorem stored_value_is_leaf_value (ts : Bytes) (doc : Members) (hg : WellKeyed doc) (x : List Bytes × Atom)
+    (hx : x ∈ leavesMembers doc) (hne : joinPath [] x.1 ≠ ts) :
+    lookupLast (flatten ts doc) (joinPath [] x.1) = some x.2 :=
+  lookupLast_of_nodup _ _ _ (names_distinct_partial ts doc hg) (leaf_preserved ts doc x hx hne)
+
+/-! ## protocol envelopes: the same tree behind a prefix -/
+
+/-- BEHIND A PREFIX (HEC `event`, OTLP `attributes` / `resource.attributes` / `scope.attributes` / `body`): nothing
+is consumed as the time, and the stored fields are exactly the leaves of the tree under `prefix` + "." + the name
+they have in a root-level document (ES bulk) -/
+theorem under_prefix_same_fields (ts cur : Bytes) (hc : cur ≠ []) (hts : dot ∉ ts) (t : Members) (hg : NoEmptyRootKey t) :
+    flatMembers ts cur t = (leavesMembers t).map (fun p => (cur ++ dot :: joinPath [] p.1, p.2)) := by
+  rw [flatMembers_eq]
+  unfold keep allCols
+  rw [List.filter_eq_self.mpr]
+  · apply List.map_congr_left
+    intro x hx
+    obtain ⟨k, r, e, hk⟩ := mem_leavesMembers_head t x hx
+    have hkn : k ≠ [] := by
+      intro e0; subst e0
+      simp [NoEmptyRootKey, rootKeysNonEmpty, hk] at hg
+    rw [e, joinPath_prefix cur k r hc hkn]
+  · intro q hq
+    simp only [List.mem_map] at hq
+    obtain ⟨x, hx, rfl⟩ := hq
+    obtain ⟨k, r, e, _⟩ := mem_leavesMembers_head t x hx
+    simp only [decide_eq_true_eq]
+    exact joinPath_ne_of_dotfree cur ts x.1 hc (by rw [e]; simp) hts
+
+/-- ES bulk (root level) versus any prefixed protocol: the field sets agree after removing the prefix, except for
+the root-level timestamp member, which the root-level document gives up as its event time -/
+theorem root_vs_prefix (ts cur : Bytes) (hc : cur ≠ []) (hts : dot ∉ ts) (t : Members) (hg : NoEmptyRootKey t)
+    (n : Bytes) (v : Atom) :
+    (n, v) ∈ flatten ts t ↔ ((cur ++ dot :: n, v) ∈ flatMembers ts cur t ∧ n ≠ ts) := by
+  rw [under_prefix_same_fields ts cur hc hts t hg, flatten_exact]
+  simp only [List.mem_filter, List.mem_map, decide_eq_true_eq, Prod.mk.injEq]
+  constructor
+  · rintro ⟨⟨x, hx, rfl, rfl⟩, h⟩
+    exact ⟨⟨x, hx, rfl, rfl⟩, h⟩
+  · rintro ⟨⟨x, hx, e1, rfl⟩, h⟩
+    have : joinPath [] x.1 = n := by simpa using e1
+    exact ⟨⟨x, hx, this, rfl⟩, h⟩
+
+/-- ES bulk hands the document itself to the flattener -/
+theorem es_stores (ts : Bytes) (t : Members) : flatten ts (envEs t) = flatten ts t := rfl
+
+/-- Splunk HEC: every leaf of the event is stored under `event.` + its root-level name (the envelope members are
+sorted by key on the way: irrelevant for WHAT is stored) -/
+theorem hec_stores_event (c : Consts) (t : Members) (x : List Bytes × Atom) (hx : x ∈ leavesMembers t) :
+    (joinPath N.event x.1, x.2) ∈ flatten tsKey (envHec c t) := by
+  unfold flatten envHec
+  refine (mem_flatMembers tsKey [] _ _).mpr ⟨(N.event :: x.1, x.2), ?_, ?_, ?_⟩
+  · rw [mem_leavesMembers_sort]
+    simp only [Members.ofList, leavesMembers, leaves, List.mem_append, List.mem_map]
+    exact Or.inr (Or.inr (Or.inr (Or.inr (Or.inr (Or.inl ⟨x, hx, rfl⟩)))))
+  · simp [joinPath, joinKey]
+  · have : joinPath [] (N.event :: x.1) = joinPath N.event x.1 := by simp [joinPath, joinKey]
+    rw [this]
+    exact joinPath_ne_of_head N.event tsKey x.1 (by decide) (by decide)
+
+/-- … i.e. under `event.<dotted path>` when the event has no empty root key -/
+theorem hec_stores_event_dotted (c : Consts) (t : Members) (hg : NoEmptyRootKey t) (k : Bytes) (r : List Bytes) (v : Atom)
+    (hx : (k :: r, v) ∈ leavesMembers t) : (N.event ++ dot :: dotted (k :: r), v) ∈ flatten tsKey (envHec c t) := by
+  obtain ⟨k', r', e, hk⟩ := mem_leavesMembers_head t _ hx
+  have hkn : k ≠ [] := by
+    simp only at e
+    obtain ⟨rfl, rfl⟩ := List.cons.inj e
+    intro e0; subst e0
+    simp [NoEmptyRootKey, rootKeysNonEmpty, hk] at hg
+  have := hec_stores_event c t (k :: r, v) hx
+  rwa [joinPath_prefix N.event k r (by decide) hkn, joinPath_root k r hkn] at this
+
+/-- OTLP logs: every leaf of the attribute tree is stored three times — as record attribute, resource attribute
+and scope attribute (the tree is delivered in all three places) — and a fourth time under `body` when the body is
+the structured tree -/
+theorem otlp_stores_attributes (c : Consts) (bodyTree ids : Bool) (msg : Bytes) (t : Members)
+    (x : List Bytes × Atom) (hx : x ∈ leavesMembers t) :
+    (joinPath N.attributes x.1, x.2) ∈ flatten tsKey (envOtlp c bodyTree ids msg t)
+    ∧ (joinPath (N.resource ++ dot :: N.attributes) x.1, x.2) ∈ flatten tsKey (envOtlp c bodyTree ids msg t)
+    ∧ (joinPath (N.scope ++ dot :: N.attributes) x.1, x.2) ∈ flatten tsKey (envOtlp c bodyTree ids msg t)
+    ∧ (bodyTree = true → (joinPath N.body x.1, x.2) ∈ flatten tsKey (envOtlp c bodyTree ids msg t)) := by
+  have hs : x ∈ leaves (sortJson (.obj t)) := (mem_leaves_sortJson _ x).mpr (by simpa [leaves] using hx)
+  have hs2 : x ∈ leaves (sortJson (.obj (.cons N.siglensIndexName (jstr c.otlpIndex) t))) :=
+    (mem_leaves_sortJson _ x).mpr (by simp [leaves, leavesMembers, hx])
+  unfold flatten envOtlp
+  refine ⟨?_, ?_, ?_, ?_⟩
+  · refine (mem_flatMembers tsKey [] _ _).mpr ⟨(N.attributes :: x.1, x.2), ?_, by simp [joinPath, joinKey], ?_⟩
+    · simp only [Members.ofList, leavesMembers, leaves, List.mem_append, List.mem_map]
+      exact Or.inr (Or.inr (Or.inr (Or.inr (Or.inr (Or.inr (Or.inr (Or.inl ⟨x, hs, rfl⟩)))))))
+    · have : joinPath [] (N.attributes :: x.1) = joinPath N.attributes x.1 := by simp [joinPath, joinKey]
+      rw [this]; exact joinPath_ne_of_head _ tsKey x.1 (by decide) (by decide)
+  · refine (mem_flatMembers tsKey [] _ _).mpr ⟨(N.resource :: N.attributes :: x.1, x.2), ?_, by simp [joinPath, joinKey, N.resource], ?_⟩
+    · simp only [Members.ofList, leavesMembers, leaves, List.mem_append, List.mem_map]
+      exact Or.inl ⟨(N.attributes :: x.1, x.2), Or.inl ⟨x, hs2, rfl⟩, rfl⟩
+    · have : joinPath [] (N.resource :: N.attributes :: x.1) = joinPath (N.resource ++ dot :: N.attributes) x.1 := by
+        simp [joinPath, joinKey, N.resource]
+      rw [this]; exact joinPath_ne_of_head _ tsKey x.1 (by decide) (by decide)
+  · refine (mem_flatMembers tsKey [] _ _).mpr ⟨(N.scope :: N.attributes :: x.1, x.2), ?_, by simp [joinPath, joinKey, N.scope], ?_⟩
+    · simp only [Members.ofList, leavesMembers, leaves, List.mem_append, List.mem_map]
+      exact Or.inr (Or.inl ⟨(N.attributes :: x.1, x.2), Or.inr (Or.inr (Or.inl ⟨x, hs, rfl⟩)), rfl⟩)
+    · have : joinPath [] (N.scope :: N.attributes :: x.1) = joinPath (N.scope ++ dot :: N.attributes) x.1 := by
+        simp [joinPath, joinKey, N.scope]
+      rw [this]; exact joinPath_ne_of_head _ tsKey x.1 (by decide) (by decide)
+  · intro hb
+    subst hb
+    refine (mem_flatMembers tsKey [] _ _).mpr ⟨(N.body :: x.1, x.2), ?_, by simp [joinPath, joinKey], ?_⟩
+    · simp only [Members.ofList, leavesMembers, leaves, List.mem_append, List.mem_map, if_true]
+      exact Or.inr (Or.inr (Or.inr (Or.inr (Or.inr (Or.inr (Or.inl ⟨x, hs, rfl⟩))))))
+    · have : joinPath [] (N.body :: x.1) = joinPath N.body x.1 := by simp [joinPath, joinKey]
+      rw [this]; exact joinPath_ne_of_head _ tsKey x.1 (by decide) (by decide)
+
+/-- ES single-document API: every leaf outside the root member `_id` (which the handler sets itself) is stored
+exactly as ES bulk stores it -/
+theorem esdoc_stores (t : Members) (x : List Bytes × Atom) (hx : x ∈ leavesMembers t) (hid : x.1.head? ≠ some N.u_id)
+    (hne : joinPath [] x.1 ≠ tsKey) : (joinPath [] x.1, x.2) ∈ flatten tsKey (envEsDoc t) := by
+  unfold flatten envEsDoc
+  refine (mem_flatMembers tsKey [] _ _).mpr ⟨x, ?_, rfl, hne⟩
+  rw [mem_leavesMembers_sort]
+  simp only [leavesMembers, List.mem_append]
+  refine Or.inr ?_
+  exact mem_leavesMembers_erase t N.u_id x hx hid
+
+/-- Loki JSON push: a stream label (a root member with a string value) is stored under its own name with its value,
+unless it is named like one of the protocol's own fields (`timestamp`, `line`) or a member of the structured
+metadata has the same name (Go map assignment: the later one replaces it) -/
+theorem loki_stores_labels (c : Consts) (msg : Bytes) (t : Members) (k s : Bytes)
+    (h : (k, Json.leaf (.str s)) ∈ t.toList) (h1 : k ≠ N.timestamp) (h2 : k ≠ N.line)
+    (h3 : ∀ kv ∈ (otherMembers t).toList, kv.1 ≠ k) :
+    (k, Atom.str s) ∈ flatten tsKey (envLoki c msg t) := by
+  unfold flatten envLoki
+  refine (mem_flatMembers tsKey [] _ _).mpr ⟨([k], .str s), ?_, by simp [joinPath, joinKey], ?_⟩
+  · rw [mem_leavesMembers_sort]
+    refine mem_foldl_setMember _ _ _ ?_ (fun kv hkv => by simpa using fun e => h3 kv hkv e.symm)
+    refine mem_setMember_other _ _ _ _ ?_ (by simpa using h2)
+    refine mem_setMember_other _ _ _ _ ?_ (by simpa using h1)
+    exact mem_stringMembers t k s h
+  · simpa [joinPath, joinKey, tsKey] using h1
+
+/-- Loki JSON push: the log line is stored as `line`, unless a member of the structured metadata is called `line` -/
+theorem loki_stores_line (c : Consts) (msg : Bytes) (t : Members)
+    (h3 : ∀ kv ∈ (otherMembers t).toList, kv.1 ≠ N.line) :
+    (N.line, Atom.str msg) ∈ flatten tsKey (envLoki c msg t) := by
+  unfold flatten envLoki
+  refine (mem_flatMembers tsKey [] _ _).mpr ⟨([N.line], .str msg), ?_, by simp [joinPath, joinKey, N.line], ?_⟩
+  · rw [mem_leavesMembers_sort]
+    refine mem_foldl_setMember _ _ _ ?_ (fun kv hkv => by simpa using fun e => h3 kv hkv e.symm)
+    exact mem_setMember_new _ N.line (.leaf (.str msg)) ([], .str msg) (by simp [leaves])
+  · simp [joinPath, joinKey, tsKey, N.line, N.timestamp]
+
+/-- the HEC envelope's own fields, as stored -/
+def hecEnvelopeFields (c : Consts) : List (Bytes × Atom) :=
+  [(N.time, .num c.hecTime.toList c.hecTime.toList), (N.host, .str (bytesOf c.host)), (N.source, .str (bytesOf c.source)),
+   (N.sourcetype, .str (bytesOf c.sourcetype)), (N.index, .str (bytesOf c.hecIndex))]
+
+/-- Splunk HEC, both directions: the stored field set is EXACTLY the envelope's own fields, the leaves of the event
+under `event`, and the leaves of `fields` under `fields` — nothing is lost and nothing else appears; hence, after
+removing the envelope fields and the prefix, HEC and ES bulk store the same field set (up to the root timestamp
+member, `root_vs_prefix`) -/
+theorem hec_stored_exactly (c : Consts) (t : Members) (q : Bytes × Atom) :
+    q ∈ flatten tsKey (envHec c t) ↔
+      (q ∈ hecEnvelopeFields c ∨ (∃ x ∈ leavesMembers t, q = (joinPath N.event x.1, x.2))
+        ∨ (∃ x ∈ leavesMembers (stringMembers t), q = (joinPath N.fields x.1, x.2))) := by
+  have he : ∀ p : List Bytes, joinPath [] (N.event :: p) = joinPath N.event p := by intro p; simp [joinPath, joinKey]
+  have hf : ∀ p : List Bytes, joinPath [] (N.fields :: p) = joinPath N.fields p := by intro p; simp [joinPath, joinKey]
+  unfold flatten envHec
+  rw [mem_flatMembers]
+  constructor
+  · rintro ⟨x, hx, rfl, _⟩
+    rw [mem_leavesMembers_sort] at hx
+    simp only [Members.ofList, leavesMembers, leaves, jstr, List.mem_append, List.mem_map, List.mem_singleton,
+      List.not_mem_nil, or_false] at hx
+    rcases hx with ⟨y, rfl, rfl⟩ | ⟨y, rfl, rfl⟩ | ⟨y, rfl, rfl⟩ | ⟨y, rfl, rfl⟩ | ⟨y, rfl, rfl⟩ | ⟨y, hy, rfl⟩ | ⟨y, hy, rfl⟩
+    · left; simp [hecEnvelopeFields, joinPath, joinKey]
+    · left; simp [hecEnvelopeFields, joinPath, joinKey]
+    · left; simp [hecEnvelopeFields, joinPath, joinKey]
+    · left; simp [hecEnvelopeFields, joinPath, joinKey]
+    · left; simp [hecEnvelopeFields, joinPath, joinKey]
+    · right; left; exact ⟨y, hy, by rw [he]⟩
+    · right; right; exact ⟨y, hy, by rw [hf]⟩
+  · rintro (h | ⟨x, hx, rfl⟩ | ⟨x, hx, rfl⟩)
+    · simp only [hecEnvelopeFields, List.mem_cons, List.not_mem_nil, or_false] at h
+      have mk : ∀ (k : Bytes) (a : Atom), k ≠ tsKey → ([k], a) ∈ leavesMembers (sortMembers (Members.ofList [
+          (N.time, .leaf (.num c.hecTime.toList c.hecTime.toList)),
+          (N.host, jstr c.host), (N.source, jstr c.source), (N.sourcetype, jstr c.sourcetype),
+          (N.index, jstr c.hecIndex), (N.event, .obj t), (N.fields, .obj (stringMembers t))])) →
+          ∃ x ∈ leavesMembers (sortMembers (Members.ofList [
+          (N.time, .leaf (.num c.hecTime.toList c.hecTime.toList)),
+          (N.host, jstr c.host), (N.source, jstr c.source), (N.sourcetype, jstr c.sourcetype),
+          (N.index, jstr c.hecIndex), (N.event, .obj t), (N.fields, .obj (stringMembers t))])),
+            (k, a) = (joinPath [] x.1, x.2) ∧ joinPath [] x.1 ≠ tsKey := by
+        intro k a hk hm
+        exact ⟨([k], a), hm, by simp [joinPath, joinKey], by simpa [joinPath, joinKey] using hk⟩
+      rcases h with rfl | rfl | rfl | rfl | rfl
+      all_goals
+        refine mk _ _ (by decide) ?_
+        rw [mem_leavesMembers_sort]
+        simp [Members.ofList, leavesMembers, leaves, jstr]
+    · refine ⟨(N.event :: x.1, x.2), ?_, by rw [he], ?_⟩
+      · rw [mem_leavesMembers_sort]
+        simp only [Members.ofList, leavesMembers, leaves, List.mem_append, List.mem_map]
+        exact Or.inr (Or.inr (Or.inr (Or.inr (Or.inr (Or.inl ⟨x, hx, rfl⟩)))))
+      · rw [he]; exact joinPath_ne_of_head N.event tsKey x.1 (by decide) (by decide)
+    · refine ⟨(N.fields :: x.1, x.2), ?_, by rw [hf], ?_⟩
+      · rw [mem_leavesMembers_sort]
+        simp only [Members.ofList, leavesMembers, leaves, List.mem_append, List.mem_map]
+        exact Or.inr (Or.inr (Or.inr (Or.inr (Or.inr (Or.inr (Or.inl ⟨x, hx, rfl⟩))))))
+      · rw [hf]; exact joinPath_ne_of_head N.fields tsKey x.1 (by decide) (by decide)
+
+end Content
 
 end SigModel.Props.C16
